@@ -260,7 +260,7 @@ class HCreateSolution(Handler):
             M.sample('C05', {'solutes': [s.name for s in solutes], 'solvent': H1._short(solvent),
                              'kwargs': kw, 'result': H1.cdesc(res.contents)})
         from . import instr
-        instr.check_create_solution(solutes, solvent, res)
+        instr.check_create_solution(solutes, solvent, res, solv_after if container_solvent else None)
 
 
 def _aliquot_amount(solvent, solv_after, s):
